@@ -274,6 +274,23 @@ var prop = h.Prop[Spec]{
 			s.Comp = h.Comp{Algo: 1, Q: 1}
 		}
 		s.Optimize = rapid.IntRange(0, 2).Draw(t, "optimize") == 0
+		if rapid.IntRange(0, 2).Draw(t, "shuffled-file") == 0 {
+			// a multi-block file whose regions are reordered (+ sparse edits): its bsdiff
+			// series reads the old file out of order, through one long-lived reader
+			nb := rapid.IntRange(2, 6).Draw(t, "shuffle-blocks")
+			oc := h.Content{{Src: 40, Len: nb*h.BS + rapid.SampledFrom([]int{0, 1, 777}).Draw(t, "shuffle-tail")}}
+			cut := rapid.IntRange(1, nb-1).Draw(t, "shuffle-cut")*h.BS + rapid.SampledFrom([]int{0, 0, 5, -5}).Draw(t, "shuffle-cut-delta")
+			nc := h.Concat(oc.Slice(cut, oc.Len()), oc.Slice(0, cut))
+			for i := 0; i < rapid.IntRange(0, 6).Draw(t, "shuffle-edits"); i++ {
+				off := rapid.IntRange(0, nc.Len()-1).Draw(t, "shuffle-edit-off")
+				nc = nc.XorRange(off, off+1, 0x3)
+			}
+			if s.Pair.Old.CanAdd("s") && s.Pair.New.CanAdd("s") {
+				s.Pair.Old = s.Pair.Old.Add(h.Entry{Path: "s", Kind: h.KFile, C: oc})
+				s.Pair.New = s.Pair.New.Add(h.Entry{Path: "s", Kind: h.KFile, C: nc})
+				s.Optimize = true
+			}
+		}
 		if s.Optimize {
 			s.Parts = rapid.IntRange(0, 2).Draw(t, "parts")
 		}
